@@ -233,6 +233,12 @@ structure Prog where
   top : List Line
   maxdepth : Nat := 6
   maxsteps : Nat := 1500
+  /-- program mode (directive `owners`): owning functors (`ownT:`/`ownK:`) are available and an *empty* slot
+      cannot be connected (`emptyslot`); without it, owning functors answer `noowner`.  The two features
+      are kept apart because their combination is known-finding-K1 territory that the model does not
+      reproduce (a functor destructor running inside an erase defers a nested erase and the following
+      sweep drops never-disconnected empty slots). -/
+  owners : Bool := false
 deriving Repr, Inhabited
 
 inductive Event
@@ -568,6 +574,22 @@ def liveCount (s : St) (fid : Nat) : Nat :=
 def liveTotal (s : St) : Nat :=
   (s.S.map (fun p => p.2.slot.liveAll)).sum
   + (s.impls.map (fun p => (p.2.cells.map (fun c => c.slot.liveAll)).sum)).sum
+
+def FSpec.isOwner : FSpec → Bool
+  | .ownT _ _ | .ownK _ _ => true
+  | _ => false
+
+/-- the mode rule of the language (see `Prog.owners`): `some result` = the operation is refused -/
+def modeRule (P : Prog) (s : St) (op : Op) : Option String :=
+  match op with
+  | .conn _ _ sv _ _ =>
+    if P.owners then
+      match aget s.S sv with
+      | some v => if v.slot.empty then some "emptyslot" else none
+      | none => none
+    else none
+  | .mkS _ _ f | .setS _ f | .connfn _ _ f _ => if !P.owners && f.isOwner then some "noowner" else none
+  | _ => none
 
 /-- the operations that run no user code: one step of the interpreter without recursion -/
 def stepSimple (s : St) (op : Op) : Option (St × String) :=
@@ -1238,9 +1260,12 @@ def execOp : Nat → Prog → St → Op → Option (St × Except Unit String)
         | some (s, .ok, r) => ok s (showRes h.fl.isVoid r)
     | .throw_ => some (s, .error ())
     | op =>
-      match stepSimple s op with
-      | some (s, r) => ok s r
-      | none => ok s "badop"
+      match modeRule P s op with
+      | some r => ok s r
+      | none =>
+        match stepSimple s op with
+        | some (s, r) => ok s r
+        | none => ok s "badop"
 
 end
 
